@@ -716,6 +716,7 @@ pub const GADGETS: &[&str] = &[
     "dangerous_call", "ioctl", "setuid_system", "chroot_only", "access_open", "umask_chmod", "malloc_sizeof_ptr",
     "rand_no_srand", "mult_malloc", "malloc_deref", "use_after_free", "double_free", "heap_overflow",
     "huge_malloc", "huge_stack", "printf_nonconst", "unchecked_return", "time_srand", "system_sprintf", "stack_overflow_store", "call_helper", "call_helper",
+    "string_building", "string_building", "callee_frees", "callee_frees", "realloc_use",
 ];
 
 impl<'a> Gen<'a> {
@@ -821,6 +822,70 @@ impl<'a> Gen<'a> {
                 // sprintf(buf, "%s %d", user, n); system(buf)
                 b = call!(b, "sprintf", &[ArgV::StackBuf(-0x60), ArgV::Const(self.rodata + 0x10), ArgV::Keep]);
                 b = call!(b, "system", &[ArgV::StackBuf(-0x60)]);
+            }
+            "string_building" if !self.lkm => {
+                // command string assembled from constant pieces along two paths that join, then
+                // extended in a loop and handed to system(): exercises the string domains (merge,
+                // widening, normalisation)
+                let join = slots();
+                let other = slots();
+                b = call!(b, "sprintf", &[ArgV::StackBuf(-0x80), ArgV::Const(self.rodata + 0x50), ArgV::Const(self.rodata + 0x20), ArgV::Const(5)]);
+                b.next_insn();
+                let cond = if p.flags.is_empty() { let c = self.u(1); b.def(Some(c.clone()), expr("INT_EQUAL", &[reg(ret, p.ptr), cst(0, p.ptr)])); c } else { b.def(Some(reg(p.flags[0], 1)), expr("INT_EQUAL", &[reg(ret, p.ptr), cst(0, p.ptr)])); reg(p.flags[0], 1) };
+                let j0 = b.jmp_tid();
+                let j1 = b.jmp_tid();
+                let next = slots();
+                b.jmps.push(json!({"tid": j0, "term": {"mnemonic": "CBRANCH", "goto": {"Direct": tid(format!("blk_{}", hex(other)), &hex(other))}, "condition": cond}}));
+                b.jmps.push(json!({"tid": j1, "term": {"mnemonic": "BRANCH", "goto": {"Direct": tid(format!("blk_{}", hex(next)), &hex(next))}}}));
+                out.push(b);
+                // path 1
+                self.note_addr(next);
+                let mut b1 = Blk::new(next, None);
+                b1 = match self.call_extern_seq(b1, "strcat", &[ArgV::StackBuf(-0x80), ArgV::Const(self.rodata)], join, out) { Some(x) => x, None => return None };
+                let _ = b1;
+                // path 2
+                self.note_addr(other);
+                let mut b2 = Blk::new(other, None);
+                b2 = match self.call_extern_seq(b2, "strcat", &[ArgV::StackBuf(-0x80), ArgV::Const(self.rodata + 0x40)], join, out) { Some(x) => x, None => return None };
+                let _ = b2;
+                // join: loop appending, then system()
+                self.note_addr(join);
+                b = Blk::new(join, None);
+                let loop_head = join;
+                let after = slots();
+                b = match self.call_extern_seq(b, "strcat", &[ArgV::StackBuf(-0x80), ArgV::Const(self.rodata + 0x30)], after, out) { Some(x) => x, None => return None };
+                b.next_insn();
+                let cond = if p.flags.is_empty() { let c = self.u(1); b.def(Some(c.clone()), expr("INT_SLESS", &[reg(ret, p.ptr), cst(3, p.ptr)])); c } else { b.def(Some(reg(p.flags[1], 1)), expr("INT_LESS", &[reg(ret, p.ptr), cst(3, p.ptr)])); reg(p.flags[1], 1) };
+                let j0 = b.jmp_tid();
+                let j1 = b.jmp_tid();
+                let fin = slots();
+                b.jmps.push(json!({"tid": j0, "term": {"mnemonic": "CBRANCH", "goto": {"Direct": tid(format!("blk_{}", hex(loop_head)), &hex(loop_head))}, "condition": cond}}));
+                b.jmps.push(json!({"tid": j1, "term": {"mnemonic": "BRANCH", "goto": {"Direct": tid(format!("blk_{}", hex(fin)), &hex(fin))}}}));
+                out.push(b);
+                self.note_addr(fin);
+                b = Blk::new(fin, None);
+                b = call!(b, "system", &[ArgV::StackBuf(-0x80)]);
+            }
+            "callee_frees" if self.helper != 0 && !p.stack_args => {
+                // the buffer is released by a helper one or two calls deep and used afterwards
+                b = call!(b, alloc, &[ArgV::Const(0x20), ArgV::Const(0xcc0)]);
+                self.i_mov_reg(&mut b, sv, ret);
+                self.setup_args(&mut b, &[ArgV::Reg(sv)]);
+                let next = slots();
+                let target = if self.r.chance(50) { self.helper + 0x100 } else { self.helper + 0x200 };
+                b = match self.end_with_call(b, CallTarget::Func(target), next, out) { Some(x) => x, None => return None };
+                if self.r.chance(50) {
+                    self.i_load(&mut b, ret, sv, 8, p.ptr);
+                } else {
+                    b = call!(b, free, &[ArgV::Reg(sv)]);
+                }
+            }
+            "realloc_use" if !self.lkm => {
+                b = call!(b, "malloc", &[ArgV::Const(0x10)]);
+                self.i_mov_reg(&mut b, sv, ret);
+                b = call!(b, "realloc", &[ArgV::Reg(sv), ArgV::Const(0x40)]);
+                let v = cst(7, 1);
+                self.i_store(&mut b, sv, 4, v);
             }
             "call_helper" if self.helper != 0 && !p.stack_args => {
                 // the same helper is called from several sites with different constant indices
@@ -1333,6 +1398,35 @@ pub fn generate(seed: u64) -> Workload {
         g.end_with_return(b, &mut outb);
         g.note_addr(a);
         subs.push(json!({"tid": tid(format!("sub_{}", hex(a)), &hex(a)), "term": {"name": "helper_set", "blocks": outb.iter().map(|b| b.to_json()).collect::<Vec<_>>(), "calling_convention": p.cconv}}));
+    }
+    if g.helper != 0 {
+        // release(p) { free(p); }  and  release2(p) { release(p); }  — frees hidden in callees
+        let free_name = if lkm { "kfree" } else { "free" };
+        if let Some((free_addr, _, _, _)) = g.ext(free_name) {
+            let a1 = g.helper + 0x100;
+            let a2 = g.helper + 0x200;
+            let mut outb = Vec::new();
+            let b = Blk::new(a1, None);
+            if let Some(nb) = g.end_with_call(b, CallTarget::Extern(free_addr, false), a1 + 0x40, &mut outb) {
+                g.end_with_return(nb, &mut outb);
+            }
+            g.note_addr(a1);
+            subs.push(json!({"tid": tid(format!("sub_{}", hex(a1)), &hex(a1)), "term": {"name": "release", "blocks": outb.iter().map(|b| b.to_json()).collect::<Vec<_>>(), "calling_convention": p.cconv}}));
+            let mut outb = Vec::new();
+            let b = Blk::new(a2, None);
+            if let Some(nb) = g.end_with_call(b, CallTarget::Func(a1), a2 + 0x40, &mut outb) {
+                g.end_with_return(nb, &mut outb);
+            }
+            g.note_addr(a2);
+            subs.push(json!({"tid": tid(format!("sub_{}", hex(a2)), &hex(a2)), "term": {"name": "release2", "blocks": outb.iter().map(|b| b.to_json()).collect::<Vec<_>>(), "calling_convention": p.cconv}}));
+        } else {
+            // without an imported free() the wrappers are plain functions that return
+            for a in [g.helper + 0x100, g.helper + 0x200] {
+                let mut outb = Vec::new();
+                g.end_with_return(Blk::new(a, None), &mut outb);
+                subs.push(json!({"tid": tid(format!("sub_{}", hex(a)), &hex(a)), "term": {"name": "release_stub", "blocks": outb.iter().map(|b| b.to_json()).collect::<Vec<_>>(), "calling_convention": p.cconv}}));
+            }
+        }
     }
     if g.exotic {
         // exotic: a function without any block (e.g. a body the disassembler could not recover)
